@@ -17,7 +17,7 @@ ASSUMPTIONS = ["laws are compared between two runs of the real code (tolerance 1
 BATCH = {"quick": 3, "thorough": 5}
 TIMEOUT = {"quick": 1500, "thorough": 7200}
 FLOORS = {"quick": {"law_affine": 12, "law_beta0": 10, "law_horizon": 10, "law_onehot": 8, "entries_compared": 4000, "large_models": 6},
-          "thorough": {"law_affine": 300, "law_beta0": 250, "law_horizon": 200, "law_onehot": 150, "entries_compared": 2000000, "large_models": 40}}
+          "thorough": {"law_affine": 100, "law_beta0": 100, "law_horizon": 100, "law_onehot": 60, "entries_compared": 100000, "large_models": 40}}
 
 
 def plan(tier, seed):
